@@ -108,8 +108,9 @@ def load_conditions(prop, tier):
     return mod, conds
 
 
-def find_condition(prop, cid):
-    for tier in ('quick', 'thorough'):
+def find_condition(prop, cid, tier_first=None):
+    # the same id can exist in both tiers with different bounds: look in the tier the record was made in first
+    for tier in ([tier_first] if tier_first in ('quick', 'thorough') else []) + ['quick', 'thorough']:
         _, conds = load_conditions(prop, tier)
         for c in conds:
             if c.id == cid:
@@ -125,7 +126,7 @@ def cmd_replay(path, quiet=False):
     assert not getattr(bitarray, '_SBX_MODEL', False), "replay must run on the real extension"
     from kit.k import ConcK
     import bitstring
-    cond = find_condition(rec['property'], rec['cond'])
+    cond = find_condition(rec['property'], rec['cond'], rec.get('tier'))
     K = ConcK(cond, rec['inputs'])
     opt0 = (bitstring.options.lsb0, bitstring.options.bytealigned, bitstring.options.mxfp_overflow)
     try:
